@@ -525,7 +525,7 @@ def stepShort (d : DS) (op : List String) (implObs implSum : String) : String ×
          s!"{fmtKey (mkKey e.slot id e.ver)}:{fmtRow (s.cols.filterMap (fun c => c[i]?))}")
        (s!"rows {joinWith "|" rows} paths=ok", d))
   | cmd :: qn :: kvs =>
-    if cmd == "iter" || cmd == "iterb" || cmd == "iterd" then
+    if cmd == "iter" || cmd == "iterb" || cmd == "iterd" || cmd == "iterds" then
       match d.world, d.queries.find? (·.1 == qn) with
       | none, _ => noWorld
       | _, none => ("no-such-query", d)
@@ -533,11 +533,14 @@ def stepShort (d : DS) (op : List String) (implObs implSum : String) : String ×
         let brk := (kvGet kvs "brk").map natOf
         let pan := (kvGet kvs "pan").map natOf
         let add := ((kvGet kvs "add").map natOf).getD 0
-        let dec := ((kvGet kvs "dec").getD "").toList
+        -- `iterds`: ecs_iter_destroy! with a closure returning plain `EcsStep` (converted by
+        -- `From<EcsStep> for EcsStepDestroy`): Continue … Continue, Break at call `brk`
+        let dec := if cmd == "iterds" then (match brk with | some k => List.replicate k 'c' ++ ['b'] | none => [])
+                   else ((kvGet kvs "dec").getD "").toList
         let save := kvGet kvs "save"
         let before := worldVals w
         let res : QOut ScriptSt Val :=
-          if cmd == "iterd" then iterDestroyQuery d.cfg (destroyClosure dec pan add) q {} w
+          if cmd == "iterd" || cmd == "iterds" then iterDestroyQuery d.cfg (destroyClosure dec pan add) q {} w
           else iterQuery d.cfg (iterClosure brk pan add) q {} w
         let fin (st : ScriptSt) (w' : World Val) (endS : String) : String × DS :=
           let d1 := d.setWorld w'
